@@ -79,17 +79,21 @@ Definition r_sends (l : list (addr * addr * Z)) (r : rstate) : rstate :=
 
 Lemma wf_precompile mx sends fails r :
   wf mx (PPrecompile sends fails) r =
-  (if mx <? r_calls r + 1 then true else wf_sends sends (r_with_calls r (r_calls r + 1))).
+  (if mx <? r_calls r + 1 then true
+   else if r_pending (r_with_calls r (r_calls r + 1)) then true
+   else wf_sends sends (r_flush (r_with_calls r (r_calls r + 1)))).
 Proof.
   simpl. destruct (mx <? r_calls r + 1); [reflexivity|].
-  generalize (r_with_calls r (r_calls r + 1)). induction sends as [|x t IH]; intros r0; simpl; [reflexivity|].
+  destruct (r_pending (r_with_calls r (r_calls r + 1))); [reflexivity|].
+  generalize (r_flush (r_with_calls r (r_calls r + 1))). induction sends as [|x t IH]; intros r0; simpl; [reflexivity|].
   rewrite IH. reflexivity.
 Qed.
 
 Lemma rrun_precompile mx sends fails r :
   rrun mx (PPrecompile sends fails) r =
   (let r0 := r_with_calls r (r_calls r + 1) in
-   if mx <? r_calls r0 then r0 else if fails then r0 else r_sends sends r0).
+   if mx <? r_calls r0 then r0 else if r_pending r0 then r0
+   else if fails then r0 else r_sends sends (r_flush r0)).
 Proof. reflexivity. Qed.
 
 Lemma bank_send_cache s f t amt : cache s <> None -> cache (bank_send s f t amt) <> None.
@@ -104,15 +108,47 @@ Proof.
     destruct (lookup _ f); [rewrite cached_cache|unfold set_obj; sdb_simp; rewrite push_cache]; discriminate.
 Qed.
 
+Lemma bank_send_cf s f t amt : cf (bank_send s f t amt) = cf s.
+Proof.
+  unfold bank_send. destruct (cache s); [|reflexivity]. destruct (_ || _); [reflexivity|].
+  rewrite !set_balance_cf. reflexivity.
+Qed.
+Lemma r_send_bl r f t amt : r_bl (r_send r f t amt) = r_bl r.
+Proof. unfold r_send. destruct (_ || _); reflexivity. Qed.
+
 Lemma sim_sends sends : forall s r,
-  R s r -> views s -> cache s <> None -> wf_sends sends r = true ->
+  R s r -> views s -> cache s <> None -> blocked (cf s) = r_bl r -> wf_sends sends r = true ->
   R (run_sends sends s) (r_sends sends r) /\ views (run_sends sends s).
 Proof.
-  induction sends as [|[[f t] amt] rest IH]; intros s r HR HV Hc Hwf; [split; assumption|].
+  induction sends as [|[[f t] amt] rest IH]; intros s r HR HV Hc Hbl Hwf; [split; assumption|].
   simpl in Hwf. apply andb_true_iff in Hwf as [Hw1 Hw2].
-  destruct (sim_bank_send s r f t amt HR HV Hc Hw1) as [HR1 HV1].
+  destruct (sim_bank_send s r f t amt HR HV Hc Hbl Hw1) as [HR1 HV1].
   unfold run_sends, r_sends. simpl.
-  apply IH; auto. apply bank_send_cache; exact Hc.
+  apply IH; auto; [apply bank_send_cache; exact Hc | rewrite bank_send_cf, r_send_bl; exact Hbl].
+Qed.
+
+(** the flush fails in the model exactly when the reference says a blocked account must be credited *)
+Lemma find_existsb {A} (f g : A -> bool) l :
+  (forall x, In x l -> f x = g x) -> (find f l = None <-> existsb g l = false).
+Proof.
+  induction l as [|x l IH]; intros H; simpl; [tauto|].
+  rewrite (H x (or_introl eq_refl)). destruct (g x); simpl; [split; discriminate|].
+  apply IH. intros y Hy. apply H. right; exact Hy.
+Qed.
+
+Lemma pending_iff s r :
+  R s r -> blocked (cf s) = r_bl r -> (flush_fail s = None <-> r_pending r = false).
+Proof.
+  intros HR Hbl. unfold flush_fail, r_pending. rewrite Hbl. apply find_existsb.
+  intros a Ha. rewrite <- Hbl in Ha. unfold fails_at.
+  pose proof (R_acc s r HR a) as Hacc. pose proof (R_base s r HR a Ha) as Hb.
+  destruct (lookup s a) as [o|] eqn:Hl, (r_accs r a) as [x|] eqn:Hx; try contradiction.
+  - destruct Hacc as (A1&_&_&A4). rewrite <- A1, <- A4, <- Hb.
+    destruct (dirt s a) eqn:Hd; [reflexivity|].
+    pose proof (R_written s r HR a o Hl (or_introl Hd)) as Hw. unfold obj_written in Hw.
+    destruct (suicided o); [reflexivity|]. destruct Hw as [Hw _]. unfold bank_bal. rewrite Hw. simpl.
+    symmetry. apply Z.ltb_irrefl.
+  - destruct (dirt s a); reflexivity.
 Qed.
 
 Lemma r_sends_calls sends : forall r, r_calls (r_sends sends r) = r_calls r.
@@ -134,7 +170,7 @@ Qed.
 
 (** ---- the invariant of a run ---- *)
 Definition Inv (mx : Z) (s : sdb) (r : rstate) : Prop :=
-  R s r /\ WFJ s /\ calls s = r_calls r /\ maxc (cf s) = mx.
+  R s r /\ WFJ s /\ calls s = r_calls r /\ maxc (cf s) = mx /\ blocked (cf s) = r_bl r.
 
 Lemma R_calls s r c : R s r -> R s (r_with_calls r c).
 Proof. intros H. eapply R_req; [exact H|]. repeat split; auto. Qed.
@@ -142,44 +178,62 @@ Proof. intros H. eapply R_req; [exact H|]. repeat split; auto. Qed.
 Lemma Inv_reverted mx s s' r c :
   Inv mx s r -> le s s' -> WFJ s' -> calls s' = c -> Inv mx s' (r_with_calls r c).
 Proof.
-  intros (HR&HW&HC&HM) HL HW' Hc. split; [apply R_calls, (R_le s s' r HR HL)|]. split; [exact HW'|].
-  split; [exact Hc|]. destruct HL as (_&_&C&_). rewrite <- C. exact HM.
+  intros (HR&HW&HC&HM&HB) HL HW' Hc. split; [apply R_calls, (R_le s s' r HR HL)|]. split; [exact HW'|].
+  split; [exact Hc|]. destruct HL as (_&_&C&_). rewrite <- C. split; [exact HM | exact HB].
+Qed.
+
+Lemma r_sends_bl l : forall r, r_bl (r_sends l r) = r_bl r.
+Proof.
+  induction l as [|x l IH]; intros r; [reflexivity|]. unfold r_sends in *. simpl. rewrite IH. apply r_send_bl.
 Qed.
 
 Lemma sim_precompile mx s r sends fails :
   Inv mx s r -> wf mx (PPrecompile sends fails) r = true ->
   Inv mx (precompile_call s sends fails) (rrun mx (PPrecompile sends fails) r).
 Proof.
-  intros (HR&HW&HC&HM) Hwf. pose proof HW as (_&_&Hrep).
+  intros (HR&HW&HC&HM&HB) Hwf. pose proof HW as (_&_&Hrep).
   pose proof (precompile_call_ok s sends fails HW) as (Hlen & HLE & HW').
   rewrite wf_precompile in Hwf. rewrite rrun_precompile. cbv zeta. simpl r_calls.
   unfold precompile_call in *. set (n := length (journal s)) in *. set (s1 := precompile_snapshot s) in *.
   assert (Hc1 : calls s1 = r_calls r + 1) by (unfold s1; rewrite snapshot_calls, HC; reflexivity).
   assert (J1 : journal s1 = snap_entry s :: journal s) by apply snapshot_journal.
   rewrite HM, Hc1. rewrite HM, Hc1 in HLE, HW', Hlen.
-  (* in the reverted cases the result has the journal length of [s], so op_ok gives le s result *)
+  assert (HI : Inv mx s r) by exact (conj HR (conj HW (conj HC (conj HM HB)))).
   assert (Hrev : forall sX, (n <= length (journal sX))%nat -> le s (unwind n (unwind n sX)) -> le s (unwind n sX)).
   { intros sX Hl H. pose proof (unwind_len n sX Hl) as Hn. rewrite <- Hn in H at 1. rewrite unwind_id in H. exact H. }
   destruct (mx <? r_calls r + 1) eqn:Hlim.
-  - apply (Inv_reverted mx s _ r); [exact (conj HR (conj HW (conj HC HM))) | | exact HW' | rewrite unwind_calls; exact Hc1].
+  - apply (Inv_reverted mx s _ r); [exact HI | | exact HW' | rewrite unwind_calls; exact Hc1].
     apply Hrev; [rewrite J1; simpl; unfold n; lia | exact HLE].
-  - assert (HR1 : R s1 r) by (apply sim_snapshot; exact HR).
-    assert (Hrep1 : repaired (cf s1) = true) by (unfold s1; rewrite snapshot_cf; exact Hrep).
-    destruct (sim_flush s1 r HR1 Hrep1) as [HRF HCl]. set (sF := commit_cache s1) in *.
-    assert (HVF : views sF) by (eapply views_of_clean; eauto).
-    assert (HcF : cache sF <> None) by (unfold sF, commit_cache; sdb_simp; discriminate).
-    destruct (sim_sends sends sF (r_with_calls r (r_calls r + 1)) (R_calls _ _ _ HRF) HVF HcF Hwf) as [HR2 HV2].
-    set (s2 := run_sends sends sF) in *.
-    assert (Hc2 : calls s2 = r_calls r + 1) by (unfold s2; rewrite run_sends_calls; exact Hc1).
-    destruct fails.
-    + apply (Inv_reverted mx s _ r); [exact (conj HR (conj HW (conj HC HM))) | | exact HW' | rewrite unwind_calls; exact Hc2].
-      apply Hrev; [|exact HLE].
-      assert (HWF : WFJ sF) by (apply WFJ_commit_cache, WFJ_snapshot; exact HW).
-      destruct (run_sends_bop (fun _ => false) sends sF HWF ltac:(intros a Ha; discriminate)) as (es & J2 & _).
-      fold s2 in J2. rewrite J2, app_length. change (journal sF) with (journal s1). rewrite J1. simpl. unfold n. lia.
-    + split; [exact HR2|]. split; [exact HW'|]. split; [rewrite r_sends_calls; exact Hc2|].
-      rewrite (op_ok_cf s s2); [exact HM | | exact HW].
-      intros _. split; [exact Hlen|]. split; assumption.
+  - set (r0 := r_with_calls r (r_calls r + 1)) in *.
+    assert (HR1 : R s1 r0) by (apply R_calls, sim_snapshot; exact HR).
+    assert (HB1 : blocked (cf s1) = r_bl r0) by (unfold s1; rewrite snapshot_cf; exact HB).
+    pose proof (pending_iff s1 r0 HR1 HB1) as Hpend.
+    destruct (flush_fail s1) as [af|] eqn:Hff.
+    + (* the pre-run flush fails *)
+      assert (Hp : r_pending r0 = true).
+      { destruct (r_pending r0); [reflexivity|]. destruct Hpend as [_ H]. discriminate (H eq_refl). }
+      rewrite Hp.
+      apply (Inv_reverted mx s _ r); [exact HI | | exact HW' | rewrite unwind_calls; exact Hc1].
+      apply Hrev; [change (journal (commit_cache_partial af s1)) with (journal s1); rewrite J1; simpl; unfold n; lia | exact HLE].
+    + assert (Hp : r_pending r0 = false) by (apply Hpend; reflexivity).
+      rewrite Hp in *.
+      assert (Hrep1 : repaired (cf s1) = true) by (unfold s1; rewrite snapshot_cf; exact Hrep).
+      destruct (sim_flush s1 r0 HR1 Hrep1) as [HRF HCl]. set (sF := commit_cache s1) in *.
+      assert (HVF : views sF) by (eapply views_of_clean; eauto).
+      assert (HcF : cache sF <> None) by (unfold sF, commit_cache; sdb_simp; discriminate).
+      destruct (sim_sends sends sF (r_flush r0) HRF HVF HcF HB1 Hwf) as [HR2 HV2].
+      set (s2 := run_sends sends sF) in *.
+      assert (Hc2 : calls s2 = r_calls r + 1) by (unfold s2; rewrite run_sends_calls; exact Hc1).
+      destruct fails.
+      * apply (Inv_reverted mx s _ r); [exact HI | | exact HW' | rewrite unwind_calls; exact Hc2].
+        apply Hrev; [|exact HLE].
+        assert (HWF : WFJ sF) by (apply WFJ_commit_cache, WFJ_snapshot; exact HW).
+        destruct (run_sends_bop (fun _ => false) sends sF HWF ltac:(intros a Ha; discriminate)) as (es & J2 & _).
+        fold s2 in J2. rewrite J2, app_length. change (journal sF) with (journal s1). rewrite J1. simpl. unfold n. lia.
+      * split; [exact HR2|]. split; [exact HW'|]. split; [rewrite r_sends_calls; exact Hc2|].
+        assert (Hcf : cf s2 = cf s).
+        { apply (op_ok_cf s s2); [|exact HW]. intros _. split; [exact Hlen|]. split; assumption. }
+        rewrite Hcf. split; [exact HM|]. rewrite HB. symmetry. rewrite r_sends_bl. reflexivity.
 Qed.
 
 (** ---- (P4) every well-formed script runs in lock-step with the reference ---- *)
@@ -215,18 +269,36 @@ Proof. reflexivity. Qed.
 Lemma rrun_body_cons mx p t r : rrun_body mx (p :: t) r = rrun_body mx t (rrun mx p r).
 Proof. reflexivity. Qed.
 
+Lemma rrun_bl_aux mx n : forall p r, (psize p <= n)%nat -> r_bl (rrun mx p r) = r_bl r.
+Proof.
+  induction n as [|n IH]; intros p r Hn; [destruct p; simpl in Hn; lia|].
+  destruct p; try reflexivity; simpl rrun.
+  - destruct (_ <? _); reflexivity.
+  - destruct (r_accs r a); reflexivity.
+  - destruct (r_accs r a); [destruct (_ || _)|]; reflexivity.
+  - destruct (_ <? _); reflexivity.
+  - assert (Hb : forall l r0, (list_sum (map psize l) <= n)%nat -> r_bl (rrun_body mx l r0) = r_bl r0).
+    { induction l as [|x t IHl]; intros r0 Hl; [reflexivity|].
+      rewrite rrun_body_cons. simpl in Hl. rewrite IHl by lia. apply IH; lia. }
+    cbn [psize] in Hn. fold (rrun_body mx body r). destruct reverted; [reflexivity|]. apply Hb; lia.
+  - destruct (_ <? _); [reflexivity|]. destruct (r_pending _); [reflexivity|]. destruct fails; [reflexivity|].
+    fold (r_sends sends (r_flush (r_with_calls r (r_calls r + 1)))). rewrite r_sends_bl. reflexivity.
+Qed.
+Lemma rrun_bl mx p r : r_bl (rrun mx p r) = r_bl r.
+Proof. apply (rrun_bl_aux mx (psize p)). lia. Qed.
+
 Lemma sim_run_aux mx n : forall p s r, (psize p <= n)%nat ->
   Inv mx s r -> wf mx p r = true -> Inv mx (run p s) (rrun mx p r).
 Proof.
   induction n as [|n IH]; intros p s r Hn HI Hwf.
   - destruct p; simpl in Hn; lia.
-  - destruct HI as (HR&HW&HC&HM).
+  - destruct HI as (HR&HW&HC&HM&HB).
     assert (Hsimple : match p with PFrame _ _ | PPrecompile _ _ => True | _ => Inv mx (run p s) (rrun mx p r) end).
     { pose proof (sim_simple mx p s r) as H1. pose proof (run_calls_simple p s) as H2.
       pose proof (rrun_calls_simple mx p r) as H3. pose proof (run_ok p s) as H4.
       destruct p; try exact I;
         (split; [apply H1; assumption|]; split; [apply (H4 HW)|]; split; [congruence|];
-         rewrite (op_ok_cf _ _ H4 HW); exact HM). }
+         rewrite (op_ok_cf _ _ H4 HW), rrun_bl; split; [exact HM | exact HB]). }
     destruct p; try exact Hsimple.
     + (* frame *)
       assert (Hbody : forall l s0 r0, (list_sum (map psize l) <= n)%nat -> Inv mx s0 r0 ->
@@ -236,13 +308,13 @@ Proof.
         simpl in Hl. apply IHl; [lia | apply IH; [lia | exact HI0 | exact Hwx] | exact Hwt]. }
       cbn [psize] in Hn. rewrite run_frame, rrun_frame.
       assert (Hw' : wf mx (PFrame body false) r = true) by exact Hwf.
-      pose proof (Hbody body s r ltac:(lia) (conj HR (conj HW (conj HC HM))) Hw') as HIb.
+      pose proof (Hbody body s r ltac:(lia) (conj HR (conj HW (conj HC (conj HM HB)))) Hw') as HIb.
       destruct reverted; [|exact HIb].
       destruct (run_body_ok body s HW) as (L & HE & HWb).
       destruct HIb as (_&_&HCb&_).
-      apply (Inv_reverted mx s _ r); [exact (conj HR (conj HW (conj HC HM))) | exact HE | apply WFJ_unwind; exact HWb |].
+      apply (Inv_reverted mx s _ r); [exact (conj HR (conj HW (conj HC (conj HM HB)))) | exact HE | apply WFJ_unwind; exact HWb |].
       rewrite unwind_calls. exact HCb.
-    + apply sim_precompile; [exact (conj HR (conj HW (conj HC HM))) | exact Hwf].
+    + apply sim_precompile; [exact (conj HR (conj HW (conj HC (conj HM HB)))) | exact Hwf].
 Qed.
 
 Theorem sim_run mx p s r : Inv mx s r -> wf mx p r = true -> Inv mx (run p s) (rrun mx p r).
@@ -252,11 +324,11 @@ Proof. apply (sim_run_aux mx (psize p)). lia. Qed.
 Lemma acct_eta (x : acct) : {| a_bal := a_bal x; a_nonce := a_nonce x; a_code := a_code x |} = x.
 Proof. destruct x; reflexivity. Qed.
 
-Lemma Inv_init mx t : Inv mx (init {| repaired := true; maxc := mx |} t) (r_init t).
+Lemma Inv_init mx bl t : Inv mx (init {| repaired := true; maxc := mx; blocked := bl |} t) (r_init bl t).
 Proof.
-  split; [|split; [apply WFJ_init; reflexivity | split; reflexivity]].
+  split; [|split; [apply WFJ_init; reflexivity | split; [reflexivity | split; reflexivity]]].
   split; [apply auxeq_refl|]. intros a.
-  assert (Hl : lookup (init {| repaired := true; maxc := mx |} t) a =
+  assert (Hl : lookup (init {| repaired := true; maxc := mx; blocked := bl |} t) a =
                match accs t a with Some x => Some (load_obj x) | None => None end) by reflexivity.
   constructor; simpl.
   - intros c H; discriminate.
@@ -271,6 +343,7 @@ Proof.
     split; [|split]; simpl; try discriminate; [reflexivity | intros k H; contradiction].
   - intros _ _. split; [reflexivity|]. intros o Ho. rewrite Hl in Ho.
     destruct (accs t a) as [x|]; [|discriminate]. inversion Ho; subst. intros k v H. discriminate.
+  - intros _. reflexivity.
 Qed.
 
 (** ---- (P5) the final commit writes the reference's final state ---- *)
@@ -322,24 +395,29 @@ Proof. intros [A B] [A' B']. split; intros; [rewrite A; apply A' | rewrite B; ap
 (** Frame atomicity: for every well-formed script, the state committed by the two-layer model
     (journal + dirty counts + object cache over tx store / cache store) is the final state of the
     copy-on-frame reference; so are the journaled tx data (logs, refund, access list). *)
-Theorem frame_atomicity mx t0 body :
-  wf_body mx body (r_init t0) = true ->
-  let s := run (PFrame body false) (init {| repaired := true; maxc := mx |} t0) in
-  let r := rrun mx (PFrame body false) (r_init t0) in
-  store_eq (commit s) (r_final r) /\ auxeq (aux s) (r_aux r).
+Theorem frame_atomicity mx bl t0 body :
+  wf_body mx body (r_init bl t0) = true ->
+  let s := run (PFrame body false) (init {| repaired := true; maxc := mx; blocked := bl |} t0) in
+  let r := rrun mx (PFrame body false) (r_init bl t0) in
+  store_eq (commit s) (r_final r) /\ auxeq (aux s) (r_aux r) /\
+  (commit_fails s = r_pending r).
 Proof.
   intros Hwf s r.
-  pose proof (sim_run mx (PFrame body false) _ _ (Inv_init mx t0) Hwf) as (HR & (_&_&Hrep) & _).
-  fold s r in HR, Hrep. split; [apply commit_final; assumption | apply (R_aux s r HR)].
+  pose proof (sim_run mx (PFrame body false) _ _ (Inv_init mx bl t0) Hwf) as (HR & (_&_&Hrep) & _ & _ & HB).
+  fold s r in HR, Hrep, HB. split; [apply commit_final; assumption|]. split; [apply (R_aux s r HR)|].
+  pose proof (pending_iff s r HR HB) as H. unfold commit_fails.
+  destruct (flush_fail s), (r_pending r); try reflexivity.
+  - destruct H as [_ H]. discriminate (H eq_refl).
+  - destruct H as [H _]. symmetry. apply H. reflexivity.
 Qed.
 
 (** every program point of every well-formed script (at any nesting depth: entering a frame
     does not change the state, and the ops of its body are steps) *)
-Inductive reach (mx : Z) (t0 : store) : sdb -> rstate -> Prop :=
-| reach_init : reach mx t0 (init {| repaired := true; maxc := mx |} t0) (r_init t0)
-| reach_step p s r : reach mx t0 s r -> wf mx p r = true -> reach mx t0 (run p s) (rrun mx p r).
+Inductive reach (mx : Z) (bl : list addr) (t0 : store) : sdb -> rstate -> Prop :=
+| reach_init : reach mx bl t0 (init {| repaired := true; maxc := mx; blocked := bl |} t0) (r_init bl t0)
+| reach_step p s r : reach mx bl t0 s r -> wf mx p r = true -> reach mx bl t0 (run p s) (rrun mx p r).
 
-Lemma reach_Inv mx t0 s r : reach mx t0 s r -> Inv mx s r.
+Lemma reach_Inv mx bl t0 s r : reach mx bl t0 s r -> Inv mx s r.
 Proof. induction 1; [apply Inv_init | apply sim_run; assumption]. Qed.
 
 Lemma op_ok_txs s s' : op_ok s s' -> WFJ s -> txs s' = txs s.
@@ -347,20 +425,20 @@ Proof.
   intros H HW. destruct (H HW) as (_&(_&T&_)&_). rewrite T. unfold unwind. symmetry. apply unwind_k_txs.
 Qed.
 
-Lemma reach_txs mx t0 s r : reach mx t0 s r -> txs s = t0.
+Lemma reach_txs mx bl t0 s r : reach mx bl t0 s r -> txs s = t0.
 Proof.
   induction 1; [reflexivity|]. rewrite (op_ok_txs s (run p s) (run_ok p s)); [assumption|].
-  apply (reach_Inv _ _ _ _ H).
+  apply (reach_Inv _ _ _ _ _ H).
 Qed.
 
 (** Reads see the reference: at every reachable program point GetState returns the reference's
     slot value and GetCommittedState the value of the slot when the transaction started. *)
-Theorem reads_see_reference_reach mx t0 s r a k :
-  reach mx t0 s r ->
+Theorem reads_see_reference_reach mx bl t0 s r a k :
+  reach mx bl t0 s r ->
   read_vals s a k = match r_accs r a with Some _ => (r_stor r a k, stor t0 a k) | None => (0, 0) end.
 Proof.
-  intros H. destruct (reach_Inv _ _ _ _ H) as (HR&_). rewrite (reads_see_reference s r a k HR).
-  rewrite (reach_txs _ _ _ _ H). reflexivity.
+  intros H. destruct (reach_Inv _ _ _ _ _ H) as (HR&_). rewrite (reads_see_reference s r a k HR).
+  rewrite (reach_txs _ _ _ _ _ H). reflexivity.
 Qed.
 
 Lemma wf_sends_firstn i : forall sends r, wf_sends sends r = true -> wf_sends (firstn i sends) r = true.
@@ -372,18 +450,20 @@ Qed.
 (** Balance views: inside a precompile body — after OnRunStart and after every bank send — and
     hence at its successful return, the StateDB balance of every account that has not
     self-destructed, converted to unibi, IS the bank balance on the cache context. *)
-Theorem balance_views_agree mx t0 s r sends fails i :
-  reach mx t0 s r -> wf mx (PPrecompile sends fails) r = true -> (mx <? calls s + 1) = false ->
+Theorem balance_views_agree mx bl t0 s r sends fails i :
+  reach mx bl t0 s r -> wf mx (PPrecompile sends fails) r = true -> (mx <? calls s + 1) = false ->
+  r_pending (r_with_calls r (calls s + 1)) = false ->
   views (run_sends (firstn i sends) (commit_cache (precompile_snapshot s))).
 Proof.
-  intros Hre Hwf Hlim. destruct (reach_Inv _ _ _ _ Hre) as (HR&HW&HC&HM). pose proof HW as (_&_&Hrep).
-  rewrite wf_precompile in Hwf. rewrite <- HC, Hlim in Hwf.
-  assert (HR1 : R (precompile_snapshot s) r) by (apply sim_snapshot; exact HR).
-  destruct (sim_flush _ r HR1 ltac:(rewrite snapshot_cf; exact Hrep)) as [HRF HCl].
-  eapply (sim_sends (firstn i sends) _ (r_with_calls r (calls s + 1))).
-  - apply R_calls; exact HRF.
+  intros Hre Hwf Hlim Hnp. destruct (reach_Inv _ _ _ _ _ Hre) as (HR&HW&HC&HM&HB). pose proof HW as (_&_&Hrep).
+  rewrite wf_precompile in Hwf. rewrite <- HC, Hlim, Hnp in Hwf.
+  assert (HR1 : R (precompile_snapshot s) (r_with_calls r (calls s + 1))) by (apply R_calls, sim_snapshot; exact HR).
+  destruct (sim_flush _ _ HR1 ltac:(rewrite snapshot_cf; exact Hrep)) as [HRF HCl].
+  eapply (sim_sends (firstn i sends) _ (r_flush (r_with_calls r (calls s + 1)))).
+  - exact HRF.
   - eapply views_of_clean; eauto.
   - unfold commit_cache; sdb_simp; discriminate.
+  - change (cf (commit_cache (precompile_snapshot s))) with (cf (precompile_snapshot s)). rewrite snapshot_cf. exact HB.
   - apply wf_sends_firstn; exact Hwf.
 Qed.
 
@@ -401,33 +481,52 @@ Proof.
   - unfold bank_bal. rewrite (lookup_none_accs s a Hl). reflexivity.
 Qed.
 
-(** Call limit: once the counter has reached the limit, a further precompile call fails and
-    leaves (a refinement of) the state it started from; what would be committed is unchanged.
-    Every call counts, reverted or not. *)
+(** Refused calls.  A precompile call made when the counter has reached the limit, or whose
+    pre-run flush fails (a blocked module account would have to be credited), fails and leaves
+    (a refinement of) the state it started from — in particular the part of the flush that was
+    already written is undone; what would be committed is unchanged.  Every call counts. *)
+Theorem refused_call mx s r sends fails :
+  Inv mx s r -> (mx < calls s + 1 \/ r_pending (r_with_calls r (calls s + 1)) = true) ->
+  le s (precompile_call s sends fails) /\
+  calls (precompile_call s sends fails) = calls s + 1 /\
+  store_eq (commit (precompile_call s sends fails)) (commit s).
+Proof.
+  intros HI Href. pose proof HI as (HR&HW&HC&HM&HB). pose proof HW as (_&_&Hrep).
+  assert (Hwf : wf mx (PPrecompile sends fails) r = true).
+  { rewrite wf_precompile. rewrite <- HC. destruct (mx <? calls s + 1) eqn:E; [reflexivity|].
+    destruct Href as [H|H]; [apply Z.ltb_ge in E; lia | rewrite H; reflexivity]. }
+  pose proof (sim_precompile mx s r sends fails HI Hwf) as (HR'&(_&_&Hrep')&HC'&_).
+  assert (Hr0 : rrun mx (PPrecompile sends fails) r = r_with_calls r (calls s + 1)).
+  { rewrite rrun_precompile. cbv zeta. simpl r_calls. rewrite <- HC.
+    destruct (mx <? calls s + 1) eqn:E; [reflexivity|].
+    destruct Href as [H|H]; [apply Z.ltb_ge in E; lia | rewrite H; reflexivity]. }
+  rewrite Hr0 in HR', HC'. simpl in HC'.
+  assert (Hlen : length (journal (precompile_call s sends fails)) = length (journal s)).
+  { unfold precompile_call. rewrite HM, snapshot_calls.
+    set (n := length (journal s)). set (s1 := precompile_snapshot s).
+    assert (J1 : journal s1 = snap_entry s :: journal s) by apply snapshot_journal.
+    destruct (mx <? calls s + 1) eqn:E.
+    - apply unwind_len. rewrite J1. simpl. unfold n. lia.
+    - destruct Href as [H|H]; [apply Z.ltb_ge in E; lia|].
+      assert (HR1 : R s1 (r_with_calls r (calls s + 1))) by (apply R_calls, sim_snapshot; exact HR).
+      assert (HB1 : blocked (cf s1) = r_bl (r_with_calls r (calls s + 1))) by (unfold s1; rewrite snapshot_cf; exact HB).
+      pose proof (pending_iff s1 _ HR1 HB1) as [Hp _].
+      destruct (flush_fail s1) as [af|]; [|rewrite (Hp eq_refl) in H; discriminate].
+      apply unwind_len. change (journal (commit_cache_partial af s1)) with (journal s1). rewrite J1. simpl. unfold n. lia. }
+  split; [|split; [exact HC'|]].
+  - pose proof (precompile_call_ok s sends fails HW) as (_ & HLE & _).
+    rewrite <- Hlen in HLE at 1. rewrite unwind_id in HLE. exact HLE.
+  - eapply store_eq_trans; [apply (commit_final _ _ HR' Hrep')|].
+    apply store_eq_sym. eapply store_eq_trans; [apply (commit_final s r HR Hrep)|].
+    split; intros; reflexivity.
+Qed.
+
 Theorem call_limit mx s r sends fails :
   Inv mx s r -> mx < calls s + 1 ->
   le s (precompile_call s sends fails) /\
   calls (precompile_call s sends fails) = calls s + 1 /\
   store_eq (commit (precompile_call s sends fails)) (commit s).
-Proof.
-  intros HI Hlim. pose proof HI as (HR&HW&HC&HM). pose proof HW as (_&_&Hrep).
-  assert (Hwf : wf mx (PPrecompile sends fails) r = true).
-  { rewrite wf_precompile. rewrite <- HC. destruct (Z.ltb_spec mx (calls s + 1)); [reflexivity|lia]. }
-  pose proof (sim_precompile mx s r sends fails HI Hwf) as (HR'&(_&_&Hrep')&HC'&_).
-  rewrite rrun_precompile in HR', HC'. cbv zeta in HR', HC'. simpl r_calls in HR', HC'.
-  rewrite <- HC in HR', HC'. destruct (Z.ltb_spec mx (calls s + 1)); [|lia].
-  split; [|split; [exact HC'|]].
-  - pose proof (precompile_call_ok s sends fails HW) as (_ & HLE & _).
-    unfold precompile_call in *. rewrite HM in *.
-    rewrite snapshot_calls in *. destruct (Z.ltb_spec mx (calls s + 1)); [|lia].
-    set (n := length (journal s)) in *. set (s1 := precompile_snapshot s) in *.
-    assert (Hn : length (journal (unwind n s1)) = n).
-    { apply unwind_len. unfold s1. rewrite snapshot_journal. simpl. unfold n. lia. }
-    rewrite <- Hn in HLE at 1. rewrite unwind_id in HLE. exact HLE.
-  - eapply store_eq_trans; [apply (commit_final _ _ HR' Hrep')|].
-    apply store_eq_sym. eapply store_eq_trans; [apply (commit_final s r HR Hrep)|].
-    split; intros; reflexivity.
-Qed.
+Proof. intros HI H. apply (refused_call mx s r sends fails HI). left; exact H. Qed.
 
 (** the counter counts every precompile call of the script, reverted or not *)
 Fixpoint ncalls (p : prog) : nat :=
@@ -440,6 +539,7 @@ Fixpoint ncalls (p : prog) : nat :=
 Lemma precompile_call_calls s sends fails : calls (precompile_call s sends fails) = calls s + 1.
 Proof.
   unfold precompile_call. destruct (_ <? _); [rewrite unwind_calls; apply snapshot_calls|].
+  destruct (flush_fail _); [rewrite unwind_calls; apply snapshot_calls|].
   destruct fails; rewrite ?unwind_calls, run_sends_calls; apply snapshot_calls.
 Qed.
 
